@@ -66,7 +66,7 @@ def plan(tier):
 
 def floors(tier):
     return {"twin-comparisons": 8000, "changed-unfrozen-twin": 3000, "frozen-raised-XGIError": 3000, "mutators-discovered>=40": 1, "unprobed<=3": 1,
-            "assert:is_frozen": 300, "assert:subhypergraph-frozen": 200, "assert:frozen-copy-editable": 300}
+            "assert:is_frozen": 300, "assert:subhypergraph-frozen": 200, "assert:frozen-copy-editable": 300, "subhypergraph:empty-node-selection": 30}
 
 
 def make_net(rng, cls):
@@ -159,8 +159,21 @@ def run_case(mon, kind, idx, rng):
             return
         if cls != "DiHypergraph":
             ns, es = list(N.nodes), list(N.edges)
-            S = xgi.subhypergraph(N, nodes=rng.sample(ns, rng.randint(1, len(ns))) if rng.random() < 0.6 else None,
-                                  edges=rng.sample(es, rng.randint(0, len(es))) if rng.random() < 0.6 else None, keep_isolates=rng.random() < 0.5)
+            r = rng.random()
+            if r < 0.15:
+                sel_nodes = []  # empty selection
+            elif r < 0.25:
+                sel_nodes = ["<absent-1>", "<absent-2>"]  # nothing of the selection exists
+            elif r < 0.75:
+                sel_nodes = rng.sample(ns, rng.randint(1, len(ns)))
+            else:
+                sel_nodes = None
+            r = rng.random()
+            sel_edges = [] if r < 0.15 else (rng.sample(es, rng.randint(0, len(es))) if r < 0.65 else None)
+            if rng.random() < 0.2 and es:
+                sel_edges = N.edges.filterby("size", 99)  # an empty view
+            mon.note("subhypergraph:empty-node-selection" if sel_nodes is not None and not [n for n in sel_nodes if n in N.nodes] else "subhypergraph:other-selection")
+            S = xgi.subhypergraph(N, nodes=sel_nodes, edges=sel_edges, keep_isolates=rng.random() < 0.5)
             mon.ev()
             mon.note("assert:subhypergraph-frozen")
             if not S.is_frozen:
